@@ -103,6 +103,58 @@ def relative_scale_fresh(ctx):
                 rep.bad("C22.R6", C, t.ast, "the convergence test is not fed by any scale that involves rtol", f"{rel}:{t.lineno}")
 
 
+def componentwise_scale(ctx, rule="C22.R8"):
+    """'its scaled residual criterion holds at the returned point': the criterion is ||f / scale|| / sqrt(n) < 1 with scale_i = atol + rtol |f0_i|.
+    A measure in which `scale` enters only through a scalar reduction (||f|| / ||scale||) agrees with it when all scale entries are equal and
+    lets the largest entry decide otherwise: a soft equation next to a stiff one is accepted 1e4 times above its tolerance, with success=True."""
+    rep = ctx.rep
+    fn = ctx.repo.get(FS, "fsolve")
+    C = f"{FS}:fsolve"
+    binds = {}
+    for w in ast.walk(fn):
+        if isinstance(w, ast.Assign) and len(w.targets) == 1 and isinstance(w.targets[0], ast.Name):
+            binds.setdefault(w.targets[0].id, []).append(w.value)
+    REDUCE = {"norm", "max", "amax", "sum", "mean", "min", "amin", "sqrt"}
+
+    def reduced_only(e, seen=None):
+        """does `scale` reach e only through a scalar reduction that does not also contain the residual?"""
+        seen = seen or set()
+        hits = []
+        par = {}
+        for p_ in ast.walk(e):
+            for c_ in ast.iter_child_nodes(p_):
+                par[id(c_)] = p_
+        for x in ast.walk(e):
+            if isinstance(x, ast.Name) and x.id == "scale":
+                up, inside = par.get(id(x)), None
+                while up is not None:
+                    if isinstance(up, ast.Call) and (dotted(up.func) or "").split(".")[-1] in REDUCE:
+                        inside = up
+                        break
+                    up = par.get(id(up))
+                has_f = inside is not None and any(isinstance(y, ast.Name) and y.id == "f" for y in ast.walk(inside))
+                hits.append(inside is not None and not has_f)
+            elif isinstance(x, ast.Name) and x.id in binds and x.id not in seen and x.id not in ("f", "scale", "x"):
+                seen.add(x.id)
+                for v in binds[x.id]:
+                    hits += reduced_only(v, seen)
+        return hits
+    n = 0
+    for st in [w for w in ast.walk(fn) if isinstance(w, ast.Assign) and len(w.targets) == 1 and isinstance(w.targets[0], ast.Name) and w.targets[0].id == "error"]:
+        n += 1
+        hits = reduced_only(st.value)
+        if not hits:
+            rep.bad(rule, C, st, f"`{norm_src(st)[:70]}` does not involve the tolerance scale at all", f"{FS}:{st.lineno}")
+        elif all(hits):
+            rep.bad(rule, C, st, f"`{norm_src(st)[:70]}`: the tolerance scale enters the error measure only through a scalar reduction, not component-wise: the equation with the largest "
+                    "scale entry decides for all, and a point at which a softly scaled equation misses its own tolerance by orders of magnitude is returned with success=True and no warning",
+                    f"{FS}:{st.lineno}")
+        else:
+            rep.ok(rule, C, f"`{norm_src(st)[:60]}`: residual divided by the scale entry by entry")
+    if n < 2:
+        raise AnalysisError(f"{rule}: fewer than 2 assignments to `error` in fsolve")
+
+
 def warnings_audible(ctx, rule, scope, floor_calls=1):
     """A warning is only as good as the filter state it is issued under.  In the modules of `scope`: (a) no `warn(...)` call lies inside a
     `with catch_warnings():` block that installs an "ignore" filter (simplefilter / filterwarnings); (b) no "ignore" filter is installed
@@ -161,6 +213,8 @@ def warnings_audible(ctx, rule, scope, floor_calls=1):
 
 def run(ctx):
     rep = ctx.rep
+    rep.rule("C22.R8", "fsolve's error measure divides the residual by the tolerance scale COMPONENT-WISE (f / scale under the norm): every equation is judged by its own atol + rtol |f0_i|, none by the scale of the worst-scaled one", 2)
+    componentwise_scale(ctx)
     rep.rule("C22.R7", "the non-convergence warning of fsolve is audible: it is not issued under a warnings filter that the helper itself installed", 1)
     warnings_audible(ctx, "C22.R7", (FS, "cardillo/math/approx_fprime.py"))
     rep.rule("C22.R6", "fixed-point helpers scale the relative tolerance by the iterates of the tested step, not by a frozen value", 2)
@@ -594,4 +648,10 @@ MUTANTS += [
 NEUTRAL += [
     dict(id="c22-n-r7", canary=True, what="fsolve: approx_fprime's performance warning silenced around the Newton loop only; the non-convergence warning is raised after the block", file=FS,
          edits=[(FS,) + ('from warnings import warn\n', 'from warnings import warn, catch_warnings, simplefilter\n'), (FS, '        for i in range(options.newton_max_iter):\n            # Newton update\n            dx = solve(x, f)\n            Delta_x -= dx\n            x = x0 + Delta_x\n\n            # new function value, error and convergence check\n            f = np.atleast_1d(fun(x, *fun_args))\n            error = np.linalg.norm(f / scale) / scale.size**0.5\n            converged = error < 1\n            if converged:\n                break\n\n        if not converged:\n            warn(f"fsolve is not converged after {i} iterations with error {error:.2e}")\n\n', '        with catch_warnings():\n            if options.numerical_jacobian_method:\n                simplefilter("ignore", UserWarning)\n\n            for i in range(options.newton_max_iter):\n                # Newton update\n                dx = solve(x, f)\n                Delta_x -= dx\n                x = x0 + Delta_x\n\n                # new function value, error and convergence check\n                f = np.atleast_1d(fun(x, *fun_args))\n                error = np.linalg.norm(f / scale) / scale.size**0.5\n                converged = error < 1\n                if converged:\n                    break\n\n        if not converged:\n            warn(f"fsolve is not converged after {i} iterations with error {error:.2e}")\n\n')]),
+]
+
+MUTANTS += [
+    dict(id="c22-r8-seed", canary=True, what="[seeded by sub-agent] fsolve measures ||f|| / ||scale|| instead of ||f / scale|| / sqrt(n) ('norm of the scale computed once')", file=FS,
+         edits=[(FS, "    error = np.linalg.norm(f / scale) / scale.size**0.5\n    converged = error < 1\n", "    scale_norm = np.linalg.norm(scale)\n    error = np.linalg.norm(f) / scale_norm\n    converged = error < 1\n"),
+                (FS, "            error = np.linalg.norm(f / scale) / scale.size**0.5\n", "            error = np.linalg.norm(f) / scale_norm\n")], expect="C22.R8"),
 ]
